@@ -588,6 +588,8 @@ def case_term(c, out):
                 return "mkC09 (%s) (OSerFail (Err %s))" % (op, p[1])
             if p[0] == "SP":
                 return "mkC09 (%s) (OSerFail (Panic 0))" % op
+            if p[0] == "ABORT":
+                return "mkC09 (%s) OAbort" % op
             return None
         if c[0] == "rtt":
             if p[0] != "T":
